@@ -11,6 +11,10 @@ import io, json, os, random, base64
 from .. import tlc, pipeline_common as pc, pool
 
 
+import re
+NOT_XML = re.compile(u'[\x00-\x08\x0b\x0c\x0e-\x1f\ud800-\udfff\ufffe\uffff]')
+
+
 def export_cases(ctx):
     out = os.path.join(ctx.work, 'fault_cases.json')
     tlc.run('ExportFault', 'ExportFault.cfg', ctx.work, env={'OUT_FILE': out})
@@ -230,6 +234,8 @@ def observe(fam, status, headers, body, esc, box, secret):
         obs['msg'] = 'InternalError'
     elif box.get('msg') is not None and msg == box['msg']:
         obs['msg'] = 'same'
+    elif box.get('msg') is not None and msg == NOT_XML.sub(u'\ufffd', box['msg']):
+        obs['msg'] = 'same_repl'
     else:
         obs['msg'] = '?'
     obs['detail'] = ['n/a', []] if detail == 'n/a' else pool.detail_tree(detail)
@@ -259,7 +265,9 @@ def run(ctx):
         if c['where'] == 'swap' and obs['msg'] == 'same':
             obs['msg'] = 'swapped'
         if case['f']['kind'] == 'fault':
-            case = json.loads(json.dumps(c)); case['f']['msg'] = 'same'
+            eff = c['where'][3:] if c['where'].startswith('sw_') else c['fam']
+            case = json.loads(json.dumps(c))
+            case['f']['msg'] = 'same_repl' if (c['f']['msg'] == 'ctl' and eff in ('xml', 'soap11', 'soap12') and c['where'] != 'swap') else 'same'
         recs.append({'case': case, 'obs': obs, 'raw': body[:400].decode('utf8', 'replace')})
     # TLC verdicts
     tf = os.path.join(ctx.work, 'fault_traces.ndjson')
@@ -329,6 +337,8 @@ def loopback(ctx, cases, worlds, secret):
         n += 1
         exp_code = pool.code_str(c['f']['code']) if c['f']['kind'] == 'fault' else 'Server'
         exp_msg = box['msg'] if c['f']['kind'] == 'fault' else 'Internal Error'
+        if c['f']['kind'] == 'fault' and c['f']['msg'] == 'ctl' and exp_msg is not None:
+            exp_msg = NOT_XML.sub(u'\ufffd', exp_msg)          # (the XML family cannot carry these characters)
         code = got[1]
         if isinstance(code, str) and ':' in code and c['fam'] in ('soap11', 'soap12', 'xml'):
             code = code.split(':', 1)[1]
